@@ -18,7 +18,7 @@ Proof.
       * exists 1. unfold spec_eval. simpl. unfold defs_of; simpl. rewrite El, Ec.
         now rewrite lookup_input_data, Hm, Eh.
       * exists g. exact Hg.
-    + set (st0 := upd_rolled (upd_err st None) []) in *.
+    + set (st0 := upd_taint (upd_rolled (upd_err st None) []) 0) in *.
       assert (I0 : Inv st0) by exact HI.
       destruct (eval_formula fuel st0 cl i) as [[v|k|] st1] eqn:Ef.
       * destruct (proj1 (proj2 (proj2 (proj2 (sim_all fuel)))) _ _ _ _ _ Ef ltac:(discriminate) I0 El Eh)
@@ -225,6 +225,9 @@ Proof.
     change (s_log st1) with (i :: s_log st) in La.
     assert (Hlog : s_log st' = s_log st2).
     { destruct rb as [v|k|]; [|inversion H; subst; apply rollback_frame_fields|congruence].
+      destruct (tainted st2).
+      { destruct v as [z|]; [|destruct (cl_allow_none cl)]; inversion H; subst;
+          try apply rollback_frame_fields; exact (proj2 (proj2 (proj2 (rollback_frame_fields st2 0)))). }
       destruct (cl_cached cl).
       - unfold store_value in H.
         destruct v as [z|]; [|destruct (cl_allow_none cl)]; inversion H; subst;
@@ -282,7 +285,7 @@ Proof.
   destruct (lookup_cell (s_cells st) (fst i)) as [cl|] eqn:El.
   - destruct (if cl_cached cl then lookup_data (s_data st) i else None) as [v|] eqn:Eh.
     + inversion H; subst. exists []. split; [reflexivity|intros []].
-    + set (st0 := upd_rolled (upd_err st None) []) in *.
+    + set (st0 := upd_taint (upd_rolled (upd_err st None) []) 0) in *.
       destruct (eval_formula fuel st0 cl i) as [[v|k|] st1] eqn:Ef.
       * inversion H; subst.
         destruct (proj1 (proj2 (proj2 (proj2 (once_all fuel)))) st0 _ _ _ _ j Ef ltac:(discriminate) HI El Eh Hj)
@@ -335,7 +338,7 @@ Proof.
   unfold eval_top in H.
   destruct (lookup_cell (s_cells st) (fst i)) as [cl|]; [|congruence].
   destruct (if cl_cached cl then lookup_data (s_data st) i else None); [inversion H|].
-  destruct (eval_formula fuel (upd_rolled (upd_err st None) []) cl i) as [[v|k'|] st1]; inversion H; subst.
+  destruct (eval_formula fuel (upd_taint (upd_rolled (upd_err st None) []) 0) cl i) as [[v|k'|] st1]; inversion H; subst.
   split; [eexists; reflexivity|]. split; [reflexivity|exact A1].
 Qed.
 
